@@ -162,3 +162,53 @@ reg(
                 "shadowing, sandboxing, global assignment and counters up to the bound."),
     level_note="The abstract model (about 80 lines) is trusted; sequences longer than the bound are not explored.",
 )
+
+
+def c11_post(cid, tier, seed, jobs, rundir, merged, notes, inconclusive, api):
+    """Cross-process clause of C11: the comparison matrices recorded by all worker processes
+    (each with its own HashMap seeds and its own rebuild order) must be identical cell by cell."""
+    mats = merged.get("each", {}).get("each:matrix", [])
+    if len(mats) < 2:
+        inconclusive.append("fewer than two worker processes exported a comparison matrix")
+        return
+    ref_shard, ref = mats[0]
+    n = int(round(len(ref) ** 0.5))
+    cells = 0
+    for shard, m in mats[1:]:
+        if len(m) != len(ref):
+            inconclusive.append(f"matrix of worker {shard} has a different size")
+            continue
+        for idx, (x, y) in enumerate(zip(ref, m)):
+            cells += 1
+            if x != y:
+                i, j = divmod(idx, n)
+                key = "process-dependent-comparison"
+                merged["violations"].append({"key": key, "what": f"pool pair ({i},{j}) compared as {x} in worker {ref_shard} and as {y} in worker {shard}",
+                                             "replay": {"check": cid, "kind": "pair-index", "i": i, "j": j, "key": key}})
+                merged["violation_counts"][key] = merged["violation_counts"].get(key, 0) + 1
+                break
+    merged["counters"]["cross-process:matrices-compared"] = len(mats)
+    merged["counters"]["cross-process:cells-compared"] = cells
+
+
+reg(
+    "C11",
+    title="equality and ordering coherence",
+    level="exploration",
+    technique="runtime monitoring: law monitors (reflexive, symmetric, negation, duality, <=/>= coherence, equal-not-ordered, int/float) on every ordered pair of the pool through Value, ValueCow, ValueViewCmp and through if/case/contains/uniq/sort templates, each pair repeated on independently rebuilt values; cross-process matrix comparison",
+    design_ref="DESIGN.md §5 C11",
+    rule=("a case = ordered pair (a, b) from a pool of 68 values (nil, booleans, integers incl. 2^53 and the i64 bounds, floats incl. +-0, infinities and NaN, "
+          "strings, dates, date-times of one instant in different offsets, empty/blank markers, arrays and objects nested two deep, multi-key objects "
+          "written in different key orders). Each pair is compared R times (quick 20, thorough 200) on values rebuilt independently (fresh HashMaps, shuffled "
+          "insertion order); every worker process evaluates the whole matrix and the orchestrator requires the 16 matrices to be identical. "
+          "distinct = distinct ordered pair (counted once, by shard 0, since all shards deliberately repeat the same matrix); non-trivial = a and b differ by "
+          "strict dump, or a is composite."),
+    exhaustive=True,
+    profiles={"quick": ["checked"], "thorough": ["checked"]},
+    floor={"quick": 60000, "thorough": 60000},
+    post=c11_post,
+    assumptions=["only the empty/blank markers are pooled, not the internal Truthy/DefaultValue states", "transitivity is not part of the statement and is not checked"],
+    level_text=("Exhaustive over the pool's ordered pairs with literal law monitors and repetition over independent constructions and processes. Right level: "
+                "construction- and process-dependence only shows when the same comparison is repeated on rebuilt values, which no unit test does."),
+    level_note="The pool is finite; laws are checked on its pairs only.",
+)
